@@ -196,10 +196,6 @@ theorem ChainSeg.nil_of_zero {pool : Array (Nat × Nat × Nat)} {l : List Nat} {
 
 theorem ChainSeg.ref_pos {pool : Array (Nat × Nat × Nat)} {r tl e : Nat} {l : List Nat} (h : ChainSeg pool r (e :: l) tl) : r = e + 1 := h.1
 
-/-- entries (0-based, newest first) of the atoms whose bytes are exactly `p` -/
-def ownIdx (atoms : List (Nat × Atom)) (p : Bytes) : List Nat :=
-  ((List.range atoms.length).filter fun e => decide ((atoms[e]?).map (fun a => a.2.bytes) = some p)).reverse
-
 theorem mem_ownIdx {atoms : List (Nat × Atom)} {p : Bytes} {e : Nat} :
     e ∈ ownIdx atoms p ↔ ∃ a, atoms[e]? = some a ∧ a.2.bytes = p := by
   unfold ownIdx
@@ -225,19 +221,8 @@ theorem ownIdx_length_le (atoms : List (Nat × Atom)) (p : Bytes) : (ownIdx atom
   exact Nat.le_trans (List.length_filter_le _ _) (by simp)
 
 theorem ownIdx_snoc (atoms : List (Nat × Atom)) (a : Nat × Atom) (p : Bytes) :
-    ownIdx (atoms ++ [a]) p = if a.2.bytes = p then atoms.length :: ownIdx atoms p else ownIdx atoms p := by
-  unfold ownIdx
-  simp only [List.length_append, List.length_singleton, List.range_succ, List.filter_append, List.reverse_append]
-  have h1 : (List.filter (fun e => decide ((((atoms ++ [a])[e]?).map fun a => a.2.bytes) = some p)) (List.range atoms.length)) =
-      (List.filter (fun e => decide (((atoms[e]?).map fun a => a.2.bytes) = some p)) (List.range atoms.length)) := by
-    apply List.filter_congr
-    intro e he
-    rw [List.mem_range] at he
-    rw [List.getElem?_append_left he]
-  rw [h1]
-  by_cases h : a.2.bytes = p
-  · simp [h]
-  · simp [h]
+    ownIdx (atoms ++ [a]) p = if a.2.bytes = p then atoms.length :: ownIdx atoms p else ownIdx atoms p :=
+  ownIdx_snoc' atoms a p
 
 theorem ownIdx_disjoint {atoms : List (Nat × Atom)} {p q : Bytes} {e : Nat} (h1 : e ∈ ownIdx atoms p) (h2 : e ∈ ownIdx atoms q) : p = q := by
   obtain ⟨a, ha, hp⟩ := mem_ownIdx.mp h1
